@@ -17,7 +17,7 @@ use rayon::prelude::*;
 use serde_json::json;
 use vcore::{rng_for, CaseOut, Ctx, Viol};
 
-use crate::util::{fhex, ghex, len_class, outer_workers, GPool};
+use crate::util::{fhex, ghex, len_class, GPool, MIXED_POOL_WORKERS};
 
 pub const NAIVE_UPTO: usize = 70;
 
@@ -268,7 +268,7 @@ pub struct MsmPlan {
     /// pools for pool-dependent entries at a given length
     pub pools_for: Box<dyn Fn(usize) -> Vec<usize> + Sync>,
     /// pools for entries that never read the rayon pool
-    pub pools_independent: Vec<usize>,
+    pub pools_independent_for: Box<dyn Fn(usize) -> Vec<usize> + Sync>,
     /// restrict the pattern list at a given length (None = all)
     pub patterns_for: Box<dyn Fn(usize) -> Option<Vec<&'static str>> + Sync>,
 }
@@ -346,24 +346,36 @@ pub fn run_curve<C: CurveAffine>(cx: &mut Ctx, plan: &MsmPlan, entries: &[Entry<
     let mut all_pools: Vec<usize> = plan
         .lengths
         .iter()
-        .flat_map(|n| (plan.pools_for)(*n))
-        .chain(plan.pools_independent.iter().copied())
+        .flat_map(|n| (plan.pools_for)(*n).into_iter().chain((plan.pools_independent_for)(*n)))
         .collect();
     all_pools.sort();
     all_pools.dedup();
-    for t in all_pools {
-        let mut cases: Vec<(String, (usize, usize))> = vec![];
+    {
+        // one case per (length, pool); lengths >= 1000 are split further, one case per entry point,
+        // so that the long cases do not serialise the run
+        let mut cases: Vec<(String, (usize, usize, Option<usize>))> = vec![];
         for n in &plan.lengths {
+          for t in all_pools.iter().copied() {
             let dep = (plan.pools_for)(*n).contains(&t);
-            let indep = plan.pools_independent.contains(&t);
-            if dep || indep {
-                cases.push((format!("{curve}:len={n}:pool={t}"), (*n, t)));
+            let indep = (plan.pools_independent_for)(*n).contains(&t);
+            if !(dep || indep) {
+                continue;
             }
+            if *n < 1000 {
+                cases.push((format!("{curve}:len={n}:pool={t}"), (*n, t, None)));
+            } else {
+                for (ei, e) in entries.iter().enumerate() {
+                    if if e.pool_independent { indep } else { dep } {
+                        cases.push((format!("{curve}:len={n}:pool={t}:entry={}", e.name), (*n, t, Some(ei))));
+                    }
+                }
+            }
+          }
         }
-        let group = format!("msm-{curve}-pool{t}");
+        let group = format!("msm-{curve}");
         let insts = &insts;
-        cx.run_cases_with(&group, &cases, outer_workers(t), |(n, t)| {
-            let (n, t) = (*n, *t);
+        cx.run_cases_with(&group, &cases, MIXED_POOL_WORKERS, |(n, t, only)| {
+            let (n, t, only) = (*n, *t, *only);
             let mut out = CaseOut::batch();
             let gp = GPool::new(t);
             let seen = gp.observed_threads();
@@ -372,11 +384,11 @@ pub fn run_curve<C: CurveAffine>(cx: &mut Ctx, plan: &MsmPlan, entries: &[Entry<
                 out.counter("pool-size-mismatch", 1);
             }
             let dep = (plan.pools_for)(n).contains(&t);
-            let indep = plan.pools_independent.contains(&t);
+            let indep = (plan.pools_independent_for)(n).contains(&t);
             let list = &insts[&n];
             let mut ran: Vec<&str> = vec![];
-            for e in entries {
-                if !(if e.pool_independent { indep } else { dep }) {
+            for (ei, e) in entries.iter().enumerate() {
+                if !(if e.pool_independent { indep } else { dep }) || only.map(|o| o != ei).unwrap_or(false) {
                     continue;
                 }
                 ran.push(&e.name);
